@@ -83,6 +83,44 @@ func hasRecoverCall(body ast.Node, info *types.Info) bool {
 func VerifyFunc(pkg *Pkg, cs *Contracts, key string) (fx *FnCtx, err error) {
 	decl := pkg.Funcs[key]
 	fc := cs.Funcs[key]
+	// "<Func>$lit": the function literal returned by <Func> (an option constructor's closure). It is verified as
+	// a function whose parameters are the captured parameters of <Func> followed by its own.
+	var litSig *types.Signature
+	var capParams []*types.Var
+	var capIdents []*ast.Ident
+	if strings.HasSuffix(key, "$lit") {
+		if outer := pkg.Funcs[strings.TrimSuffix(key, "$lit")]; outer != nil && outer.Body != nil {
+			var lit *ast.FuncLit
+			ast.Inspect(outer.Body, func(n ast.Node) bool {
+				if r, ok := n.(*ast.ReturnStmt); ok && lit == nil && len(r.Results) == 1 {
+					if l, ok := r.Results[0].(*ast.FuncLit); ok {
+						lit = l
+					}
+				}
+				return lit == nil
+			})
+			if lit != nil {
+				if sg, ok := pkg.Info.TypeOf(lit).(*types.Signature); ok {
+					litSig = sg
+					if decl == nil {
+						decl = &ast.FuncDecl{Name: ast.NewIdent(key), Type: lit.Type, Body: lit.Body}
+					}
+					if of, ok := pkg.Info.Defs[outer.Name].(*types.Func); ok {
+						osig := of.Type().(*types.Signature)
+						for i := 0; i < osig.Params().Len(); i++ {
+							capParams = append(capParams, osig.Params().At(i))
+						}
+					}
+					for _, f := range outer.Type.Params.List {
+						if len(f.Names) == 0 {
+							capIdents = append(capIdents, nil)
+						}
+						capIdents = append(capIdents, f.Names...)
+					}
+				}
+			}
+		}
+	}
 	fx = &FnCtx{pkg: pkg, cs: cs, sc: NewSortCtx(), fc: fc, decl: decl, key: key, hiddenNames: map[string]bool{},
 		heapSort: map[string]string{}, heapInit: map[string]string{}, usedAxioms: map[string]bool{}, usedSpecs: map[string]bool{}}
 	defer func() {
@@ -125,10 +163,16 @@ func VerifyFunc(pkg *Pkg, cs *Contracts, key string) (fx *FnCtx, err error) {
 	})
 	fx.hasRecover = hasRecoverCall(decl.Body, pkg.Info)
 	st := &State{vars: map[types.Object]Val{}, named: map[string]Val{}, heap: map[string]string{}}
-	fn := pkg.Info.Defs[decl.Name].(*types.Func)
-	sig := fn.Type().(*types.Signature)
+	var sig *types.Signature
+	if litSig != nil {
+		sig = litSig
+	} else {
+		fn := pkg.Info.Defs[decl.Name].(*types.Func)
+		sig = fn.Type().(*types.Signature)
+	}
 	// bind parameters: contract header names must match positions
 	var params []*types.Var
+	params = append(params, capParams...)
 	if sig.Recv() != nil {
 		params = append(params, sig.Recv())
 	}
@@ -140,6 +184,7 @@ func VerifyFunc(pkg *Pkg, cs *Contracts, key string) (fx *FnCtx, err error) {
 	}
 	// receiver/param objects as declared in the AST (names may be _ or absent)
 	var declParams []*ast.Ident
+	declParams = append(declParams, capIdents...)
 	if decl.Recv != nil {
 		for _, f := range decl.Recv.List {
 			if len(f.Names) == 0 {
@@ -361,6 +406,9 @@ func (fx *FnCtx) Finalize() {
 			}
 			calls := map[string]bool{}
 			specCalls(ax.Expr, calls)
+			for _, b := range []string{"len", "cap", "has", "mapdom", "mapval", "sel", "store", "is", "as", "ite", "fresh", "alloc", "bid", "arr", "off", "typeOf"} {
+				delete(calls, b) // builtins of the contract language are not spec functions
+			}
 			use := len(calls) == 0 // pure heap-shape axioms (grammar well-formedness) are always in scope
 			for c := range calls {
 				if fx.usedSpecs[c] {
